@@ -709,6 +709,90 @@ func (c *ctx) joinAcceptAliasEvents() {
 
 func upp2(b bool) bool { return b }
 
+// marshalAlias: the output of an element-level MarshalBinary is overwritten; the value that was encoded must not change
+func (c *ctx) marshalAliasEvents() {
+	type enc interface{ MarshalBinary() ([]byte, error) }
+	cases := []struct {
+		name string
+		mk   func() (enc, func() []int)
+	}{
+		{"DataPayload", func() (enc, func() []int) {
+			v := &lorawan.DataPayload{Bytes: c.bytesN(1 + c.rnd.Intn(20))}
+			return v, func() []int { return bs(v.Bytes) }
+		}},
+		{"ProprietaryMACCommandPayload", func() (enc, func() []int) {
+			v := &lorawan.ProprietaryMACCommandPayload{Bytes: c.bytesN(1 + c.rnd.Intn(6))}
+			return v, func() []int { return bs(v.Bytes) }
+		}},
+		{"MACCommand(proprietary)", func() (enc, func() []int) {
+			pp := &lorawan.ProprietaryMACCommandPayload{Bytes: c.bytesN(1 + c.rnd.Intn(6))}
+			return &lorawan.MACCommand{CID: 0xf0, Payload: pp}, func() []int { return bs(pp.Bytes) }
+		}},
+		{"MACPayload(raw FRMPayload)", func() (enc, func() []int) {
+			dp := &lorawan.DataPayload{Bytes: c.bytesN(1 + c.rnd.Intn(20))}
+			fp := uint8(7)
+			return &lorawan.MACPayload{FPort: &fp, FRMPayload: []lorawan.Payload{dp}}, func() []int { return bs(dp.Bytes) }
+		}},
+	}
+	for _, cs := range cases {
+		v, read := cs.mk()
+		before := read()
+		var out []byte
+		res, _ := observeFast(func() error {
+			var err error
+			out, err = v.MarshalBinary()
+			return err
+		})
+		for i := range out {
+			out[i] ^= 0xff
+		}
+		c.emit(M{"ev": "marshalalias", "type": cs.name, "err": res, "before": before, "after": read()})
+	}
+}
+
+// failedDecode: a decode step that FAILS (truncated command in FOpts / in a port-0 payload) must leave the frame as it was:
+// it still re-encodes to the bytes that were received
+func (c *ctx) failedDecodeEvents() {
+	for i := 0; i < 6; i++ {
+		up := i%2 == 0
+		mt := byte(lorawan.UnconfirmedDataDown)
+		bad := []byte{0x02, 0x01} // LinkCheckAns (down) cut after one of its two payload bytes
+		if up {
+			mt = byte(lorawan.UnconfirmedDataUp)
+			bad = []byte{0x06, 0xff} // DevStatusAns (up) cut after one of its two payload bytes
+		}
+		var frame []byte
+		what := "DecodeFOptsToMACCommands"
+		if i%3 == 0 {
+			frame = append(append([]byte{mt << 5, 1, 2, 3, 4, byte(len(bad)), 9, 0}, bad...), 1, 2, 3, 4)
+		} else {
+			frame = append(append([]byte{mt << 5, 1, 2, 3, 4, 0, 9, 0, 0}, bad...), 1, 2, 3, 4)
+			what = "DecodeFRMPayloadToMACCommands"
+		}
+		var phy lorawan.PHYPayload
+		if err := phy.UnmarshalBinary(append([]byte{}, frame...)); err != nil {
+			continue
+		}
+		before := phyToVal(&phy)
+		res, _ := observeFast(func() error {
+			switch what {
+			case "DecodeFOptsToMACCommands":
+				return phy.DecodeFOptsToMACCommands()
+			default:
+				return phy.DecodeFRMPayloadToMACCommands()
+			}
+		})
+		var re []byte
+		rres, _ := observeFast(func() error {
+			var err error
+			re, err = phy.MarshalBinary()
+			return err
+		})
+		ev := M{"ev": "faileddecode", "what": what, "err": res, "before": before, "after": phyToVal(&phy), "rerr": rres, "re": bs(re), "frame": bs(frame)}
+		c.emit(ev)
+	}
+}
+
 // bandIso2: two objects of one band are mutated one after the other; the first must keep its state while the
 // second changes, and the second must end exactly like an object that received the same operations alone.
 func (c *ctx) genBandOps(chans []band.VerifChannel, extra bool) []M {
@@ -777,6 +861,8 @@ func drvOwn(c *ctx) error {
 			c.subsliceEvents()
 		}
 		c.methodAliasEvents()
+		c.marshalAliasEvents()
+		c.failedDecodeEvents()
 		c.joinAcceptAliasEvents()
 		c.twoDecodeEvents() // last: it registers a proprietary MAC command in this process
 	case "bands":
